@@ -34,11 +34,6 @@ def RunVar.add (r : RunVar α) (x : α) : RunVar α :=
 
 def RunVar.addAll (r : RunVar α) (xs : List α) : RunVar α := xs.foldl RunVar.add r
 
-/-- `f64::clamp` -/
-def fclamp (x lo hi : α) : α :=
-  let x := if x < lo then lo else x
-  if x > hi then hi else x
-
 /-- one coordinate of a diagonal transformation -/
 structure Scale (α : Type) where
   std : α
